@@ -85,7 +85,7 @@ class Wrap(Part):
             "conflicting palette (overlapping, nested, duplicated, empty, remainder-equal) x base style x width 2..200 (biased to 2..12) x justify x "
             "overflow x no_wrap x tab_size, through Text.wrap and through console rendering; non-trivial = >=2 output lines and (>=2 overlapping "
             "spans with different styles, or a word broken by folding, or a wide character ending a full line)")
-    budget = {"quick": (8, 1500), "thorough": (16, 25000)}
+    budget = {"quick": (16, 1500), "thorough": (16, 25000)}
 
     def strategy(self, tier):
         return case()
